@@ -28,7 +28,7 @@ WORK = os.environ.get("VERIF_WORK", os.path.join(VERIF, ".work"))
 SCRATCH = os.path.realpath(REPO) != "/repo"
 OUTDIR = WORK if SCRATCH else VERIF
 KDIR = os.path.join(VERIF, "kani")
-FEATURES = "std,pratt,extension,either"
+FEATURES = "std,pratt,extension,either,unstable"
 WORKERS = int(os.environ.get("VERIF_WORKERS", "12"))
 HARNESS_TIMEOUT = {"quick": 420, "thorough": 900}
 
